@@ -215,12 +215,21 @@ def _pts_of(r):
     return 2 + (r % 3)
 
 
+def _dense_row(r, m=4):
+    """Content of dense observation r: integer-valued for r < 100, with a fractional part (+ 1/4) for r >= 100, so that a
+    cast to an integer type is visible."""
+    v = cu.obs_values([m], r)
+    return v + 0.25 if r >= 100 else v
+
+
 def build_comp(c):
     A, V, FD = cu._fd()
     k = c[0]
     if k == "D":
         rows = c[1]
-        vals = np.stack([cu.obs_values([4], r) for r in rows]) if rows else np.zeros((0, 4))
+        vals = np.stack([_dense_row(r) for r in rows]) if rows else np.zeros((0, 4))
+        if len(c) > 2 and c[2]:
+            vals = vals.astype(np.dtype(c[2]))       # the piece's own value dtype
         return FD.DenseFunctionalData(A.DenseArgvals({"input_dim_0": cu.grid(4, 1)}), V.DenseValues(vals))
     if k == "B":
         from FDApy.representation.basis import Basis
@@ -254,8 +263,8 @@ def read_comp(x):
     if isinstance(x, FD.DenseFunctionalData):
         rows = [cu._rtag(x.values[i]) for i in range(x.values.shape[0])]
         for i, r in enumerate(rows):
-            if not np.array_equal(np.asarray(x.values[i]), cu.obs_values([4], r)):
-                bad.append(f"row {i} is not observation {r}")
+            if not np.array_equal(np.asarray(x.values[i], dtype=float), _dense_row(r)):
+                bad.append(f"row {i} is not observation {r}: {np.asarray(x.values[i]).tolist()} (dtype {np.asarray(x.values).dtype})")
         return "D:" + cu.nv(rows), bad
     if isinstance(x, FD.BasisFunctionalData):
         rows = [cu._rtag(x.coefficients[i]) for i in range(x.coefficients.shape[0])]
@@ -479,6 +488,29 @@ def gen_cat_permuted(rng: Rng):
         yield dict(kind="cat", base=base, how="permuted", tree=tree, perm=perm)
 
 
+def _dtype_cat_cases():
+    """In every run: dense pieces (alone and as components of multivariate pieces) whose values have different dtypes, in every
+    order and grouping: the concatenation holds the exact values of the pieces (NumPy's promotion), whatever the grouping."""
+    dts = ["int64", "int32", "float32", "float64"]
+    nxt = itertools.count(1)
+
+    def piece(dt, k):
+        frac = dt.startswith("float")
+        return ["D", [(100 if frac else 0) + next(nxt) % 90 + 1 for _ in range(k)], dt]
+
+    for a in dts:
+        for b in dts:
+            if a != b:
+                yield dict(kind="cat", base=None, how="dtypes", tree=["N", [["L", ["U", piece(a, 2)]], ["L", ["U", piece(b, 1)]]]])
+    for trio in itertools.permutations(["int64", "float64", "float32"], 3):
+        leaves = [["L", ["U", piece(dt, 1 + j % 2)]] for j, dt in enumerate(trio)]
+        for tree in groupings(leaves):
+            yield dict(kind="cat", base=None, how="dtypes", tree=tree)
+    for a, b in (("int64", "float64"), ("float32", "int32"), ("int32", "float64")):
+        yield dict(kind="cat", base=None, how="dtypes",
+                   tree=["N", [["L", ["M", [piece(a, 2), ["I", [[0, 10], [1, 11]]]]]], ["L", ["M", [piece(b, 1), ["I", [[0, 12]]]]]]]])
+
+
 def _iter_fixed_cases():
     """In every run: iteration over every iterable class, with the pieces kept."""
     yield dict(kind="iter", comp=["D", [3, 14, 15, 9]])
@@ -638,6 +670,7 @@ def _gen_cases(rng: Rng, tier):
         yield from gen_cat_permuted(rng)
     yield from _vorder_cases()
     yield from _iter_fixed_cases()
+    yield from _dtype_cat_cases()
     if big:
         for n in range(3, 7):
             for comp in _compositions(n):
